@@ -159,7 +159,7 @@ def case_copy(case):
     from snaxc.transforms.snax_copy_to_dma import SNAXCopyToDMA
 
     shape, elw, sdesc, ddesc = case
-    el = elw // 8
+    el = (elw + 7) // 8  # an element occupies whole bytes (i1 / i4: one byte, i12: two)
     shp = "x".join("?" if s is None else str(s) for s in shape)
     ts = f"memref<{shp}xi{elw}{layout_text(sdesc, shape)}>"
     td = f"memref<{shp}xi{elw}{layout_text(ddesc, shape)}>"
@@ -314,6 +314,15 @@ def run(chk):
     cases.append(((4, 4), 8, ("tsl", [[2, 2], [2, 2]], [[8, 2], [4, 1]], 0), ("tsl", [[2, 2], [2, 2]], [[1, 4], [2, 8]], 0)))
     cases.append(((4, 8), 8, ("tsl", [[4], [2, 2, 2]], [[8], [4, 2, 1]], 0), ("tsl", [[4], [2, 2, 2]], [[1], [4, 8, 16]], 0)))
     # dynamic shapes
+    # element widths that are not a multiple of 8 bits
+    for elw in (1, 4, 12) if quick else (1, 4, 12, 24, 48):
+        b2 = [[2, 2], [2, 4]]
+        cases.append(((4, 8), elw, ("id",), ("id",)))
+        cases.append(((4, 8), elw, ("id",), ("strided", [1, 4], 0)))
+        cases.append(((4, 8), elw, ("strided", [16, 1], 3), ("id",)))
+        cases.append(((4, 8), elw, ("id",), ("tsl", b2, [[16, 4], [8, 1]], 0)))
+        cases.append(((4, 8), elw, ("tsl", b2, [[16, 4], [8, 1]], 0), ("strided", [8, 1], 0)))
+        cases.append(((None, 8), elw, ("id",), ("tsl", [[None, 2], [2, 4]], [[32, 4], [16, 1]], 0)))
     for elw in (8, 32):
         cases.append(((None,), elw, ("id",), ("id",)))
         cases.append(((None, 8), elw, ("id",), ("id",)))
@@ -365,5 +374,5 @@ def run(chk):
         bounds = [rnd.choice(splits(d)) for d in shape]
         cases.append((shape, rnd.choice([8, 32] if quick else [8, 16, 32, 64]), rand_layout(shape, bounds), rand_layout(shape, bounds)))
     chk.add_results("copy_lowering", pmap(case_copy, cases, chunks=2))
-    chk.bounds = dict(cases=len(cases), ranks="1..4", widths="8/32 quick, 8/16/32/64 thorough", dynamic_sizes=f"1..{NMAX} tiles", elements="<= 120 static")
+    chk.bounds = dict(cases=len(cases), ranks="1..4", widths="8/32 quick, 8/16/32/64 thorough; 1/4/12 (24/48 thorough) bits on layout-changing copies", dynamic_sizes=f"1..{NMAX} tiles", elements="<= 120 static")
     chk.outside = ["dynamic tile steps inside tsl layouts", "overlapping source/destination", "sizes beyond the stated ranges"]
